@@ -144,6 +144,18 @@ def random_cfg(rnd, mods):
             extra = [m for m in mods if m != "r" and not related(m, x) and not related(m, p)]
             objs = [p] + (rnd.sample(extra, 1) if extra and rnd.random() < 0.4 else [])
             return {"verb": rnd.choice(["should", "should_not"]), "dir": d, "exc": True, "subs": [("named", x)], "objs": [("named", o) for o in objs], "anything": False}
+    if rnd.random() < 0.08:
+        # nested lists on one side ('sub modules of [P, P.q]'): per-pair import requirements stay well defined
+        nested = [(a, b) for a in mods for b in mods if a != "r" and is_ancestor(a, b)]
+        if nested:
+            a, b = rnd.choice(nested)
+            side = [a, b] if rnd.random() < 0.5 else [b, a]
+            free = [m for m in mods if m != "r" and not related(m, a)]
+            if free:
+                other = [rnd.choice(free)]
+                nested_objs = rnd.random() < 0.6
+                subs_, objs_ = (other, side) if nested_objs else (side, other)
+                return {"verb": rnd.choice(["should", "should_not"]), "dir": d, "exc": False, "subs": [(skind, s) for s in subs_], "objs": [(okind, o) for o in objs_], "anything": False, "nested_side": True}
     subs = pick_unrelated(rnd, mods, rnd.randint(1, 3), kind=skind)
     if not subs:
         return None
@@ -201,6 +213,8 @@ def floors(acc, tier):
         for o in ("pass", "fail"):
             if h.get(f"{s}:{o}", 0) == 0:
                 why.append(f"shape {s} never observed with outcome {o}")
+    if acc.counters["c01_judged_nested_lists"] < 100:
+        why.append(f"only {acc.counters['c01_judged_nested_lists']} rules with nested module lists on one side judged")
     if acc.counters["c01_judged"] < 10000:
         why.append(f"strict oracle judged only {acc.counters['c01_judged']} evaluations")
     acc.flags["exhaustive"] = bool(acc.flags.get("exhaustive_T1"))
